@@ -482,11 +482,24 @@ example :
   simp only [List.foldl, COp.apply, joinLines_eq, utf8_eq_flatMap]
   decide
 
+-- The two items that were OPEN here are proved in Rivia/Props/C06T.lean (a separate file because
+-- Lemmas/Content.lean, on which this file is built, cannot be imported together with the copy / move /
+-- traversal development: duplicate declaration names such as `Rivia.Lemmas.bind_ok`, `dropLast_ne_self`,
+-- `copyM_file`):
+--   * `copy` / `move_p` of a directory TREE and `copy` INTO an existing directory:
+--     `C06_copy_tree_content`, `C06_copy_tree_into_dir`, `C06_copy_tree_does_not_alias` (two-step
+--     history: a later write_all / append_all under the copy leaves the originals alone and vice versa),
+--     `C06_move_tree_content` — for every state with `C03_Strong`, `KeysWf` (+ `DepthOk` for copy),
+--     no hypothesis on the traversal.
+--   * every key produced by `absM` is well formed: `C06_abs_key_wf` (from `∀ n ∈ s.cwd, Wf n`), hence
+--     `dstOf dk sk sk = dk` for resolved keys (`C06_dstOf_self_of_abs`); hypothesis-free single-file
+--     versions `C06_copy_does_not_alias_wf` / `C06_move_does_not_alias_wf`.
+--
 -- OPEN (not proved):
---   * `copy` / `move_p` of a directory tree (recursive case) and `copy` into an existing directory
---     (`copyInto`): only the single-file case onto a non-directory path is proved above.
---   * that every key produced by `absM` is well-formed (`∀ n ∈ k, Wf n`), which would discharge the
---     decidable hypothesis `dstOf dk sk sk = dk` of `C06_copy_does_not_alias` /
---     `C06_move_does_not_alias` once and for all (`C06_dstOf_self` reduces it to that).
+--   * `C06_copy_does_not_alias` / `C06_move_does_not_alias` of THIS file keep their decidable hypothesis
+--     `dstOf dk sk sk = dk`: `absM_wf` (Lemmas/AbsWf.lean) is on the other side of the import split.
+--   * that the names of cwd (and of every key) are never `..` on REACHABLE states: `C03_Strong` excludes
+--     the empty name, `.` and names with `/`, not `..`; `KeysWf s` therefore stays a decidable side
+--     condition of the C06T theorems (see the OPEN block there).
 
 end Rivia.Props
